@@ -446,7 +446,7 @@ CORR = {
     "C07": [corr_helpers("C07", ("macro", "withmacro"))],
     "C11": [corr_helpers("C11", ("builderr",))],
     "C06": [corr_c06],
-    "C01": [corr_peg("C01", xonsh=False), corr_helpers("C01", ("makeargs", "span"))],
+    "C01": [corr_peg("C01", xonsh=False), corr_helpers("C01", ("makeargs", "span", "concat"))],
     "C04": [corr_helpers("C04", ("span", "concat"))],
     "C02": [corr_peg("C02")],
     "C05": [corr_peg("C05")],
